@@ -99,6 +99,15 @@ def positive(tier, seed):
                     for c in DNA:
                         if c != base[p]:
                             out.append(("dna", None, base[:p] + c + base[p + 1:]))
+    # very long literals (beyond 64 machine words), where a macro might switch to another expansion strategy
+    for n in ([1000, 2049, 2100, 4097] if th else [2049, 2100]):
+        base = background(DNA, n, seed + 7000 + n)
+        out.append(("dna", None, base))
+        out.append(("dna", None, base[:n - 1] + DNA[(DNA.index(base[n - 1]) + 1) % 4]))
+    for n in ([513, 1025, 1100, 2049] if th else [1025, 1100]):
+        base = background(IUPAC, n, seed + 7100 + n)
+        out.append(("iupac", None, base))
+        out.append(("iupac", None, IUPAC[(IUPAC.index(base[0]) + 1) % 16] + base[1:]))
     for n in range(0, (2 if th else 1) + 1):
         out += [("iupac", None, s) for s in all_strings(IUPAC, n)]
     for n in [3, 15, 16, 17, 31, 32, 33, 63, 64, 65]:
